@@ -483,6 +483,10 @@ def run_files(ctx, n, tag):
             exp_sheets.append("%s=%s" % (utf8hex(list(key)), ",".join(
                 "%d:%d:%s" % (r, c, utf8hex(v)) for (r, c), v in sorted(exp_cells.items()))))
         cp = rng.choice(biffgen.CODEPAGES)
+        if NESTED["ok"] and rng.random() < 0.25:
+            # a chart substream nested in the sheet: its records are not the sheet's
+            sheets = [(hb_, nm_, with_nested(rng, cs_, len(strs))) for (hb_, nm_, cs_) in sheets]
+            ctx.count("file:nested-substream")
         extra = real_globals(rng) if rng.random() < 0.5 else b""
         if rng.random() < 0.5:
             sheets = [(hb_, nm_, [("raw", dimensions_rec(rng))] + cs_) for (hb_, nm_, cs_) in sheets]
@@ -551,6 +555,54 @@ def dimensions_rec(rng):
     if rng.random() < 0.8:
         return biffgen.rec(0x0200, struct.pack("<IIHHH", 0, rng.randrange(1, 70000), 0, rng.randrange(1, 257), 0))
     return biffgen.rec(0x0200, struct.pack("<HHHHH", 0, rng.randrange(1, 65536), 0, rng.randrange(1, 257), 0))
+
+# a substream nested in a worksheet substream (the chart of an embedded chart object, [MS-XLS]
+# 2.1.7.20.5): BOF(dt = chart) ... EOF; its series cache is made of LABEL / NUMBER / BOOLERR records
+NESTED = {"ok": False}
+BOF_CHART = biffgen.rec(0x0809, struct.pack("<HHHHII", 0x0600, 0x0020, 0x0DBB, 0x07CC, 0, 0x0306))
+
+def nested_block(rng, nstr):
+    inner = b""
+    for _ in range(rng.randrange(0, 5)):
+        k = rng.randrange(5)
+        if k == 0:
+            inner += biffgen.cell_records(("label", rng.randrange(4), rng.randrange(4), 0, [0x58, 0x59]))
+        elif k == 1:
+            inner += biffgen.cell_records(("sst", rng.randrange(4), rng.randrange(4), rng.randrange(nstr + 1)))
+        elif k == 2:
+            inner += biffgen.rec(0x0203, struct.pack("<HHHd", rng.randrange(4), rng.randrange(4), 0, 2.5))
+        elif k == 3:
+            inner += biffgen.cell_records(("fstring", rng.randrange(4), rng.randrange(4), 1, [0x4E2D]))
+        else:
+            inner += biffgen.rec(0x1001, bytes(12)) + biffgen.rec(0x0200, bytes(14))
+    if rng.random() < 0.15:        # a substream inside the nested one
+        inner += BOF_CHART + biffgen.cell_records(("label", 0, 0, 0, [0x5A])) + biffgen.EOF
+    return BOF_CHART + inner + biffgen.EOF
+
+def with_nested(rng, cells, nstr):
+    out = list(cells)
+    for _ in range(rng.choice([1, 1, 2])):
+        out.insert(rng.randrange(len(out) + 1), ("raw", nested_block(rng, nstr)))
+    return out
+
+def probe_nested(ctx):
+    """does the tree under check skip substreams nested in a sheet (repair of audit-2 finding XLS-2 in
+    the sheet loop, which C12's model wb_sheet follows)?  On a tree without it the nested-substream
+    cases are not run (the model is that commit ahead): said in the evidence."""
+    tmp = os.path.join(vlib.CACHE, "tmp", "c12")
+    os.makedirs(tmp, exist_ok=True)
+    chart = BOF_CHART + biffgen.cell_records(("label", 0, 0, 0, [0x58, 0x58])) + biffgen.EOF
+    wb = biffgen.workbook_stream(EMPTY_SST, [], [(0, [0x53], [("label", 0, 0, 0, [0x61]), ("raw", chart), ("label", 1, 0, 0, [0x62])])])
+    path = os.path.join(tmp, "probe_nested.xls")
+    open(path, "wb").write(biffgen.xls_file(wb))
+    i = ctx.run_impl(["pn\tc12_open\t%s" % path]).get("pn")
+    m = ctx.run_model(["pn\tc12_open\t%s" % wb.hex()]).get("pn")
+    NESTED["ok"] = (i == m)
+    ctx.extra["nested_substream_cases"] = "run" if NESTED["ok"] else (
+        "NOT run: the tree under check reads the records of a substream nested in a sheet as cells of the sheet "
+        "(impl %s, model %s): audit-2 finding XLS-2, whose repair C12's model of the sheet loop already follows" % (i, m))
+    if not NESTED["ok"]:
+        ctx.notes.append(ctx.extra["nested_substream_cases"])
 
 def run_coq_workbooks(ctx, n, tag):
     """whole workbooks written by the extracted Coq writer workbook_stream (the one the theorem
@@ -975,6 +1027,59 @@ def run_xls1_witnesses(ctx):
             ctx.violations.append({"case": l, "expected": want[cid], "actual": impl.get(cid), "model": model.get(cid),
                                    "what": "BIFF8 workbook whose CodePage record is not 1200 (audit-2 XLS-1): strings must read as stored"})
 
+# ---------------------------------------------------------------- BIFF5 / BIFF7 byte strings (audit-2 finding XLS-6b)
+# Outside C12's model and theorems (a BIFF5 BOF answers 'unmodelled'; the statement's packings — 8-bit
+# compressed / 16-bit — are BIFF8's): witnesses only, real reader against the text the writer stored.
+# A BIFF5 string has no flag byte: cch bytes of the workbook's code page, one OR TWO per character.
+BIFF5_TEXTS = [
+    (1252, "cp1252", ["abc", "caf\u00e9 \u20ac", "Regiss\u00f6r"]),
+    (1251, "cp1251", ["abc", "\u041f\u0440\u0438\u0432\u0435\u0442"]),
+    (10000, "mac_roman", ["abc", "caf\u00e9"]),
+    (932, "cp932", ["abc", "\u3042", "\u65e5\u672c\u8a9e abc \uff71"]),          # Shift-JIS: hiragana, kanji, half-width katakana
+    (936, "gbk", ["abc", "\u4e2d\u6587 x"]),
+    (949, "cp949", ["abc", "\ud55c\uae00"]),
+    (950, "big5", ["abc", "\u4e2d\u6587"]),
+    (None, "latin-1", ["abc", "caf\u00e9 \u00ff"]),     # no CodePage record: the bytes read as Latin-1
+]
+
+def biff5_workbook(cp, codec, texts):
+    """Book stream of a BIFF5 workbook: sheet name = texts[-1], LABEL cells of every text in column 0,
+    FORMULA + STRING cells in column 1"""
+    rec = biffgen.rec
+    bof = lambda dt: rec(0x0809, struct.pack("<HHHH", 0x0500, dt, 0x0DBB, 0x07CC))
+    name = texts[-1].encode(codec)
+    body = rec(0x0200, struct.pack("<HHHHH", 0, len(texts), 0, 2, 0))
+    for i, t in enumerate(texts):
+        b = t.encode(codec)
+        body += rec(0x0204, struct.pack("<HHHH", i, 0, 0, len(b)) + b)
+        body += rec(0x0006, struct.pack("<HHH", i, 1, 0) + biffgen.FORMULA_STRING_STUB) + rec(0x0207, struct.pack("<H", len(b)) + b)
+    sub = bof(0x0010) + body + biffgen.EOF
+    pre = bof(0x0005) + (rec(0x0042, struct.pack("<H", cp)) if cp is not None else b"") + rec(0x00E0, bytes(16))
+    bs = lambda pos: rec(0x0085, struct.pack("<IBB", pos, 0, 0) + bytes([len(name)]) + name)
+    glob = pre + bs(len(pre) + len(bs(0)) + len(biffgen.EOF)) + biffgen.EOF
+    h = lambda t: t.encode("utf-8").hex()
+    want = "ok:%s=%s" % (h(texts[-1]), ",".join("%d:0:%s,%d:1:%s" % (i, h(t), i, h(t)) for i, t in enumerate(texts)))
+    return glob + sub, want
+
+def run_biff5_witnesses(ctx):
+    tmp = os.path.join(vlib.CACHE, "tmp", "c12")
+    os.makedirs(tmp, exist_ok=True)
+    il, ml, want = [], [], {}
+    for cp, codec, texts in BIFF5_TEXTS:
+        cid = "kb5_%s" % cp
+        st, w = biff5_workbook(cp, codec, texts)
+        path = os.path.join(tmp, cid + ".xls")
+        open(path, "wb").write(biffgen.cfb_write([("Book", st)]))
+        il.append("%s\tc12_open\t%s" % (cid, path)); ml.append("%s\tc12_open\t%s" % (cid, st.hex())); want[cid] = w
+    impl, model = ctx.run_impl(il), ctx.run_model(ml)
+    for l in il:
+        cid = l.split("\t", 1)[0]
+        ctx.traces += 1
+        ctx.count("corpus:biff5-byte-strings(model: %s)" % model.get(cid))
+        if impl.get(cid) != want[cid]:
+            ctx.violations.append({"case": l, "expected": want[cid], "actual": impl.get(cid), "model": model.get(cid),
+                                   "what": "BIFF5 workbook: byte strings of the workbook's code page (audit-2 XLS-6b) must read as stored"})
+
 UNMODELLED_GLOBALS = {0x0018: "Lbl"}
 UNMODELLED_SHEET = {0x0203: "Number", 0x0205: "BoolErr", 0x027E: "RK", 0x00BD: "MulRk", 0x00E5: "MergeCells", 0x0006: "Formula"}
 
@@ -1033,8 +1138,10 @@ def run_fixtures(ctx):
 # ---------------------------------------------------------------- entry points
 def run(ctx):
     rng = ctx.rng
+    probe_nested(ctx)
     run_corpus(ctx)
     run_xls1_witnesses(ctx)
+    run_biff5_witnesses(ctx)
     run_fixtures(ctx)
     run_sst_cases(ctx, boundary_tables(rng), "b", mutate=False)
     tabs = []
